@@ -360,6 +360,11 @@ def ample_knobs(s, op, plan):
     k["max_iter"] = {"FISTA": 30000, "LBFGS": 3000, "GramCD": 20000, "PDCD_WS": 300}.get(solver, 200)
     if inner:
         k[inner] = 5000 if solver == "PDCD_WS" else {"max_epochs": 3000, "max_pn_iter": 300}[inner]
+    if op.get("budget"):
+        # a fixed smaller budget, still far beyond what the problem class of the op needs
+        k["max_iter"] = int(op["budget"][0]) * (100 if solver == "GramCD" else 1)
+        if inner:
+            k[inner] = int(op["budget"][1])
     return k
 
 
@@ -410,6 +415,13 @@ def run_quiesce(s, J, op, plan, degenerate, results, counts):
             and (s.solver_name != "FISTA" or tol >= 1e-3 * gscale):   # FISTA is O(1 / k^2)
         props = ["C02"] + (["C05"] if warm else [])
         out.append(dict(prop=props, oracle="liveness", sig=sig0 + ("no_convergence_ample_budget",),
+                        detail=dict(stop_crit=res["stop_crit"], tol=tol, knobs=knobs),
+                        feat=J.feat(res, dict(n_outer=(res.get("seam") or {}).get("outer")))))
+    if op.get("liveness_scale") and not claimed and pr.pen.convex and gen.get("rho", 1) <= 0.9 \
+            and quad_like and pr.n >= pr.p + (1 if res["fi"] else 0) + 1 \
+            and bool(pr.absX.any(axis=0).all()) and np.isfinite(res["stop_crit"]):
+        out.append(dict(prop=["C19"], oracle="liveness_scaled_column",
+                        sig=sig0 + ("no_convergence_with_scaled_column",),
                         detail=dict(stop_crit=res["stop_crit"], tol=tol, knobs=knobs),
                         feat=J.feat(res, dict(n_outer=(res.get("seam") or {}).get("outer")))))
     # ---- C02: reference optimum
@@ -591,12 +603,26 @@ def judge_critical(s, J, pr, res, w, b, tol, claimed, plan):
     strong = crit == "subdiff" and gap >= 1e3 * tol * (1 + colmean) and pen.convex
     cold_exact = (res["start"] in ("cold", "cold_buf") and not res["fi"] and bool(np.all(pmask))
                   and s.solver_name != "LBFGS")
+    # (iii) a cold start on exactly centred columns: for the quadratic and the logistic loss the
+    # gradient with respect to the coefficients at w = 0 does not depend on the intercept, so
+    # with the gap dominating rounding no coordinate update can move a coefficient away from
+    # zero while the intercept is being fitted - also for the non-convex MCP family, at any gamma
+    colsum = float(np.max(np.abs(pr.X.sum(axis=0)), initial=0.0))
+    xscale = float(np.max(pr.absX, initial=0.0)) * pr.n + 1e-300
+    cold_centred = (res["start"] in ("cold", "cold_buf") and bool(np.all(pmask))
+                    and s.dname in ("Quadratic", "Logistic", "QuadraticMultiTask")
+                    and colsum <= 1e-12 * xscale and alpha >= amax * (1 + 1e-4)
+                    and s.solver_name in ("AndersonCD", "MultiTaskBCD", "GramCD")
+                    and not (res.get("faults") or {}).get("aa"))
+    if cold_centred and not res["fi"]:
+        cold_exact = True
     if alpha >= amax * (1 + 1e-9):
-        if nz and (strong or cold_exact):
+        if nz and (strong or cold_exact or cold_centred):
             out.append(dict(prop=["C16"], oracle="null_above_critical",
                             sig=sig0 + ("nonzero_above_alpha_max",),
                             detail=dict(alpha=alpha, alpha_max=amax, nonzero_units=nz[:5], tol=tol,
-                                        route="cold_exact" if cold_exact else "gap"),
+                                        route="cold_exact" if cold_exact else
+                                        ("cold_centred" if cold_centred and not strong else "gap")),
                             feat=J.feat(res, dict(ratio=alpha / amax))))
         elif not nz:
             # unpenalised part must be optimal: gradient of the loss w.r.t. it within tol
